@@ -64,23 +64,29 @@ def contract(n, coefs, api, none_mask, diff, vals, g0, kwc):
         return p(*args, kw=kwc)
 
     vjp, y = make_vjp(f, Q(x0))
-    got = vjp(Q(g0)).v
     argv = tuple(x0 if diff[i] else vals[i] for i in range(n))
     yv = sum(coefs[i] * argv[i] for i in range(n)) + kwc
     if y.v != yv:
         return False
-    want = 0
-    for i in range(n):
-        if diff[i] and not none_mask[i]:
-            want = want + coefs[i] * g0
-            hits = [c for c in CALLS if c[0] == i]
-            # invoked exactly once, with the primitive's output, the ORIGINAL (unboxed) argument values and the kwargs
-            if len(hits) != 1 or hits[0][1] != yv or hits[0][2] != argv or hits[0][3] != kwc:
-                return False
-        else:
-            if any(c[0] == i for c in CALLS):
-                return False
-    return got == want
+    # two backward evaluations of the same trace (what jacobian / hessian do): in EACH of them every rule is
+    # invoked exactly once and the result is the full sum
+    for gv in (g0, g0 + 1):
+        del CALLS[:]
+        got = vjp(Q(gv)).v
+        want = 0
+        for i in range(n):
+            if diff[i] and not none_mask[i]:
+                want = want + coefs[i] * gv
+                hits = [c for c in CALLS if c[0] == i]
+                # invoked exactly once, with the primitive's output, the ORIGINAL (unboxed) argument values and the kwargs
+                if len(hits) != 1 or hits[0][1] != yv or hits[0][2] != argv or hits[0][3] != kwc:
+                    return False
+            else:
+                if any(c[0] == i for c in CALLS):
+                    return False
+        if got != want:
+            return False
+    return True
 
 
 def _contract3(c0: int, c1: int, c2: int, api: int, n0: bool, n1: bool, n2: bool, d0: bool, d1: bool, d2: bool, v0: int, v1: int, v2: int, g0: int, kwc: int) -> bool:
